@@ -24,6 +24,11 @@ package lucene
 // When no strict derivation exists the checker retries with the smallest set of
 // named relaxations under which one exists; every relaxation is its own finding
 // category, so that one known deviation never hides another one.
+//
+// Interface: /verif/harness/README.md (VERIF_TIER, VERIF_SEED, VERIF_REPORT).  Extra knobs,
+// not needed for normal runs: VERIF_INPUT=<input, Go-quoted or verbatim> replays the check
+// on that single input; VERIF_C06_LEN / VERIF_C06_RLEN / VERIF_C06_XLEN / VERIF_C06_RANDOM override the bounds.
+// The test also runs a self-test of its own oracle on hand-built trees first.
 
 import (
 	"encoding/json"
